@@ -276,8 +276,9 @@ def gains_bounded_instance():
 
 def instances(tier):
     out = []
-    for kind in ('cacg', 'watson', 'vmf'):
-        out.append(normalisation_instance(kind, 2, 2))
+    out.append(normalisation_instance('cacg', 2, 2))
+    out.append(normalisation_instance('watson', 1, 2))
+    out.append(normalisation_instance('vmf', 2, 2))
     out.append(normalisation_instance('cacg', 1, 3))
     for kind in ('cacg-logpdf', 'cacg-fit', 'cacgmm-estep', 'watson-logpdf', 'watson-fit', 'bingham-logpdf'):
         out.append(unit_invariance_instance(kind, 2, 2))
